@@ -102,6 +102,19 @@ func (r *Response) WriteTo(w io.Writer) (int64, error) {
 var _ encoding.BinaryMarshaler = (*Response)(nil)
 
 func (r Response) MarshalBinary() ([]byte, error) {
+	if body := r.Data.Body; body != nil && body != http.NoBody {
+		// Read the body here rather than inside DumpResponse: if the stream
+		// fails, DumpResponse leaves the half-consumed body in place and the
+		// caller - who still forwards this response - would lose every byte
+		// that did arrive.
+		data, err := io.ReadAll(body)
+		_ = body.Close()
+		if err != nil {
+			r.Data.Body = &partialBody{Reader: bytes.NewReader(data), err: err}
+			return nil, fmt.Errorf("failed to read response body: %w", err)
+		}
+		r.Data.Body = io.NopCloser(bytes.NewReader(data))
+	}
 	respBytes, err := httputil.DumpResponse(r.Data, true)
 	if err != nil {
 		return nil, fmt.Errorf("failed to marshal response: %w", err)
@@ -115,6 +128,22 @@ func (r Response) MarshalBinary() ([]byte, error) {
 	buf.Write(respBytes)
 	return buf.Bytes(), nil
 }
+
+// partialBody replays what was read of a body that failed, then the failure.
+type partialBody struct {
+	*bytes.Reader
+	err error
+}
+
+func (p *partialBody) Read(b []byte) (int, error) {
+	n, err := p.Reader.Read(b)
+	if err == io.EOF {
+		err = p.err
+	}
+	return n, err
+}
+
+func (p *partialBody) Close() error { return nil }
 
 var (
 	errReadBytes       = errors.New("failed to read bytes")
